@@ -642,9 +642,27 @@ func check(id, tier string, nworkers, runsOverride int, budgetOverride float64, 
 	}
 	distinctSchedules = len(skeys)
 
+	// regression corpus: replay files of earlier detections (fixed findings,
+	// seeded changes) are re-executed against the current tree
+	corpusN, corpusKnown, corpusBad := replayCorpus(b, id, tier, seed, work, myKnown)
+	if agg.maps["corpus"] == nil {
+		agg.maps["corpus"] = map[string]int64{}
+	}
+	agg.maps["corpus"]["replayed"] = int64(corpusN)
+	agg.maps["corpus"]["known_finding"] = int64(corpusKnown)
+	agg.maps["corpus"]["violations"] = int64(len(corpusBad))
+
 	exit := 0
 	var vline string
 	nviol := 0
+	if violation == nil && len(corpusBad) > 0 {
+		nviol = len(corpusBad)
+		for _, cb := range corpusBad {
+			fmt.Printf("corpus replay %s: violation kind=%v class=%v\n%v\n", cb.path, cb.kind, cb.class, cb.msg)
+		}
+		vline = fmt.Sprintf("VIOLATION property=%s replay=%s", id, corpusBad[0].path)
+		exit = 1
+	}
 	if violation != nil {
 		nviol = 1
 		os.MkdirAll(filepath.Join(verifDir, "replays"), 0o755)
@@ -694,6 +712,88 @@ func check(id, tier string, nworkers, runsOverride int, budgetOverride float64, 
 		fmt.Println(vline)
 	}
 	return exit
+}
+
+type corpusHit struct {
+	path, kind, class, msg string
+}
+
+// replayCorpus re-executes every file of corpus/<id>/ in fresh worker
+// processes (16 at a time). A violation that matches an open known finding
+// is counted, any other is returned.
+func replayCorpus(b *built, id, tier string, seed uint64, work string, known []knownFinding) (n, nKnown int, bad []corpusHit) {
+	if os.Getenv("HTSV_NO_CORPUS") != "" {
+		return 0, 0, nil
+	}
+	files, _ := filepath.Glob(filepath.Join(verifDir, "corpus", id, "*.json"))
+	sort.Strings(files)
+	var mu sync.Mutex
+	var wg sync.WaitGroup
+	sem := make(chan struct{}, 16)
+	for i, f := range files {
+		wg.Add(1)
+		sem <- struct{}{}
+		go func(i int, f string) {
+			defer wg.Done()
+			defer func() { <-sem }()
+			rb, err := os.ReadFile(f)
+			if err != nil {
+				die(2, "%v", err)
+			}
+			var rp struct {
+				Tier string `json:"tier"`
+				Seed uint64 `json:"seed"`
+			}
+			json.Unmarshal(rb, &rp)
+			if rp.Tier == "" {
+				rp.Tier = tier
+			}
+			job := map[string]interface{}{"property": id, "tier": rp.Tier, "seed": rp.Seed, "replay": f, "out": filepath.Join(work, fmt.Sprintf("corpus%d.json", i))}
+			wr, log, err := runWorker(b, job, filepath.Join(work, fmt.Sprintf("corpus%d.job", i)), 10*time.Minute)
+			mu.Lock()
+			defer mu.Unlock()
+			n++
+			if err != nil {
+				if sig := crashSignature(log); sig != "" {
+					if strings.Contains(sig, "out of memory") && !unboundedGrowth(log) {
+						return // resource limit: not judged
+					}
+					bad = append(bad, corpusHit{f, "crash", "crash:" + sig, "the process died of a fatal runtime error: " + sig + " in " + crashFrames(log)})
+					return
+				}
+				fmt.Fprintln(os.Stderr, log)
+				die(2, "%s: corpus replay %s failed: %v", id, f, err)
+			}
+			if len(wr.Violation) == 0 || string(wr.Violation) == "null" {
+				return
+			}
+			var v struct {
+				Kind  string `json:"kind"`
+				Class string `json:"class"`
+				Msg   string `json:"msg"`
+			}
+			json.Unmarshal(wr.Violation, &v)
+			for _, k := range known {
+				if k.Status != "open" || (k.Kind != "" && k.Kind != v.Kind) {
+					continue
+				}
+				all := true
+				for _, c := range k.Contains {
+					if !strings.Contains(v.Class, c) {
+						all = false
+					}
+				}
+				if all {
+					nKnown++
+					return
+				}
+			}
+			bad = append(bad, corpusHit{f, v.Kind, v.Class, v.Msg})
+		}(i, f)
+	}
+	wg.Wait()
+	sort.Slice(bad, func(i, j int) bool { return bad[i].path < bad[j].path })
+	return n, nKnown, bad
 }
 
 func firstLineOf(s string) string {
@@ -780,6 +880,7 @@ func writeEvidenceFile(id, tier string, seed uint64, pi propInfo, b *built, agg 
 		"outcomes":                         agg.maps["outcomes"],
 		"inconclusive":                     agg.maps["inconclusive"],
 		"known_findings_hit":               agg.maps["known_findings_hit"],
+		"regression_corpus":                agg.maps["corpus"],
 		"extra":                            agg.maps["extra"],
 		"crash_points":                     agg.ints["crash_points"],
 		"site_coverage":                    map[string]interface{}{"hit": hit, "total": len(total), "never_hit": never, "note": "all instrumented synchronisation sites of the library (statement-level yields excluded); sites outside this property's code paths are expected in never_hit"},
